@@ -584,6 +584,7 @@ run_line (char *line)
 	else if (!strcmp (tok [0], "iolog")) op_iolog (tok, ntok) ;
 	else if (!strcmp (tok [0], "ledger")) op_ledger (tok, ntok) ;
 	else if (!strcmp (tok [0], "fdw")) op_fdworld (tok, ntok) ;
+	else if (!strcmp (tok [0], "lowfd")) op_lowfd (tok, ntok) ;
 	else if (!strcmp (tok [0], "fsize")) op_fsize (tok, ntok) ;
 	else if (!strcmp (tok [0], "tmpenv")) op_tmpenv (tok, ntok) ;
 	else if (!strcmp (tok [0], "shortio")) op_shortio (tok, ntok) ;
